@@ -277,10 +277,14 @@ Definition dns_new (cfg : config) : res dns :=
       end
     end.
 
-(* bm: what reqMatcher.domainMatcher.MatchDomainBitmap(qname) returns *)
+(* upstream2Index.Load(fromUpstream): the index stored by the init callback, AsIs for anything else *)
+Definition from_index (s : src) : N := match s with SAsIs => DnsRequestOutboundIndex_AsIs | SUp i => i end.
+
+(* bm: what reqMatcher.domainMatcher.MatchDomainBitmap(qname) returns.  The request matcher has no answer addresses and
+   no answering upstream (a_ips, a_from are never read on this side). *)
 Definition request_select (d : dns) (bm : list N) (q : question) : res req_verdict :=
   let bmo := if String.eqb (q_name q) "" then None else Some bm in
-  match match_loop Request (b_ipsets (d_req d)) {| a_qtype := q_type q; a_ips := []; a_from := 0 |} bmo
+  match match_loop Request (b_ipsets (d_req d)) {| a_qtype := q_type q; a_ips := []; a_from := from_index SAsIs |} bmo
                    (b_rules (d_req d)) 0 false false with
   | Err e => Err e
   | Ok up =>
@@ -289,9 +293,6 @@ Definition request_select (d : dns) (bm : list N) (q : question) : res req_verdi
     else if N.of_nat (List.length (d_ups d)) <=? up then Err E_BAD_INDEX
     else Ok (QUp up)
   end.
-
-(* upstream2Index.Load(fromUpstream): the index stored by the init callback, AsIs for anything else *)
-Definition from_index (s : src) : N := match s with SAsIs => DnsRequestOutboundIndex_AsIs | SUp i => i end.
 
 Definition is_reserved (up : N) : bool :=
   (up =? DnsResponseOutboundIndex_Accept) || (up =? DnsResponseOutboundIndex_Reject)
